@@ -50,7 +50,7 @@ REQUIRED = [
 ]
 BUDGET = {"quick": 9000, "thorough": 150000}
 QUICK_JOBS = 8
-TIME_LIMIT = {"quick": 160, "thorough": 1350}
+TIME_LIMIT = {"quick": 150, "thorough": 1350}
 RULE = (
     "a case is nontrivial when the object has at least one mutable cell besides itself and (method stream) the call "
     "returned normally or changed the receiver; distinct = distinct (recipe, operation, argument seed, mode) tuples"
@@ -302,7 +302,7 @@ def impl_meth(c, x):
     fails = []
     _settle(x)
     y = do_copy(x, p["how"])
-    _settle(y)
+    fy_before = _settle(y)
     arng = fw.rng_for(p["aseed"], "C04args")
     if mode == "A":
         recv, other, who = y, x, "copy"
@@ -370,6 +370,13 @@ def impl_meth(c, x):
                 a, b = F.fp(res), F.fp(y)
                 if a != b:
                     fails.append(dict(kind="result-differs", diff=F.diff(a, b)))
+                # effective coverage: which nested components did the in-place form change on this receiver?
+                if fy_before is not None:
+                    opname = p["cls"] + "." + name
+                    present = F.components_present(fy_before)
+                    changed = F.components_changed(fy_before, b)
+                    c.tags = c.tags + tuple(f"has:{opname}:{k}" for k in sorted(present)) + \
+                        tuple(f"eff:{opname}:{k}" for k in sorted(changed))
                 fr2 = F.fp(recv)
                 done = _follow_up(res, arng)
                 fr3 = F.fp(recv)
@@ -481,6 +488,18 @@ def extra_coverage(run):
         if k.startswith("op:"):
             _, name, st = k.split(":")
             ops.setdefault(name, {})[st] = run.dist.pop(k)
+    has, eff = {}, {}
+    for k in list(run.dist):
+        if k.startswith("has:") or k.startswith("eff:"):
+            tag, name, comp = k.split(":")
+            (has if tag == "has" else eff).setdefault(name, {})[comp] = run.dist.pop(k)
+    effective = {}
+    for name in sorted(has):
+        ch = eff.get(name, {})
+        effective[name] = dict(changed={k: ch[k] for k in sorted(ch)},
+                               present_never_changed=sorted(k for k in has[name] if k not in ch),
+                               receivers=max(has[name].values()))
+    switch_ops = sorted(f"{cn}.{n}" for cn, n, k in op_table() if k == "switch")
     table = op_table()
     all_ops = sorted(set(f"{cn}.{n}" for cn, n, _ in table))
     never_ok = sorted(n for n in ops if "ok" not in ops[n])
@@ -495,5 +514,13 @@ def extra_coverage(run):
         operations_returned_normally_at_least_once=len(ops) - len(never_ok),
         operations_only_raised_this_run=never_ok[:80],
         uncallable_operations=dict(size=len(M.UNCALLABLE), names=M.UNCALLABLE),
+        inplace_switchable_operations=len(switch_ops),
+        inplace_switchable_never_run_in_place_this_run=[n for n in switch_ops if n not in effective],
+        inplace_switchable_without_any_effect_this_run=[n for n in effective if not effective[n]["changed"]],
+        effective_coverage_note="per in-place-switchable (class, method), over the mode-C cases in which both forms returned: "
+                                "`changed` = nested components of the receiver that the in-place form changed at least once "
+                                "(with the number of cases), `present_never_changed` = components some receiver had but no "
+                                "call changed (a no-op there is not coverage of that component)",
+        effective_coverage=effective,
         classes_without_generated_instance=["BiQuadraticLatitudeLongitudeSubarray", "QuadraticLatitudeLongitudeSubarray"],
     )
